@@ -2,6 +2,7 @@
 package c11
 
 import (
+	"bytes"
 	"context"
 	"fmt"
 	"math/rand"
@@ -31,11 +32,31 @@ type seqProxy struct {
 	accepted [][][]byte
 	refused  int
 	nextID   int
+	// evidence: hand-offs by size (bigHandoff = the payload of one default DA blob, 64*64*482 bytes)
+	big, bigRefused int
+	maxBytes        int
 }
+
+const bigHandoff = 64 * 64 * 482
 
 func (p *seqProxy) SubmitBatchTxs(ctx context.Context, req coresequencer.SubmitBatchTxsRequest) (*coresequencer.SubmitBatchTxsResponse, error) {
 	res, err := p.inner.SubmitBatchTxs(ctx, req)
+	size := 0
+	if req.Batch != nil {
+		for _, tx := range req.Batch.Transactions {
+			size += len(tx)
+		}
+	}
 	p.mu.Lock()
+	if size > p.maxBytes {
+		p.maxBytes = size
+	}
+	if size > bigHandoff {
+		p.big++
+		if err != nil {
+			p.bigRefused++
+		}
+	}
 	if err != nil {
 		p.refused++
 	} else if req.Batch != nil {
@@ -73,6 +94,21 @@ type Case struct {
 	Queue  int      `json:"queue_bound"`
 	Ops    []string `json:"ops"` // inj:<n>:<kind> | reap | prod | restart | crash-reap:<k> | crash-prod:<k>
 	TxSeed int64    `json:"tx_seed"`
+	// BigTxKB: size range (KB) of the transactions injected by kind "big" (large-hand-off scripts)
+	BigTxKB [2]int `json:"big_tx_kb,omitempty"`
+}
+
+// txName abbreviates a transaction for messages and witnesses (large transactions are a short
+// header followed by padding).
+func txName(tx []byte) string {
+	if len(tx) <= 80 {
+		return string(tx)
+	}
+	head := tx[:32]
+	if i := bytes.IndexByte(tx[:80], '|'); i >= 0 {
+		head = tx[:i]
+	}
+	return fmt.Sprintf("%s|...(%d bytes)", head, len(tx))
 }
 
 func (c Case) key() string { return fmt.Sprintf("q%d %s", c.Queue, strings.Join(c.Ops, " ")) }
@@ -136,6 +172,13 @@ func (s *sim) inject(rng *rand.Rand, n int, kind string) {
 			if i > 0 {
 				tx = []byte(fmt.Sprintf("tx-%d-%d", s.c.ID, s.txN))
 			}
+		case "big":
+			s.txN++
+			lo, hi := s.c.BigTxKB[0], s.c.BigTxKB[1]
+			size := (lo + rng.Intn(hi-lo+1)) * 1024
+			tx = make([]byte, size)
+			rng.Read(tx)
+			copy(tx, fmt.Sprintf("tx-%d-%d|", s.c.ID, s.txN))
 		}
 		if tx == nil {
 			s.txN++
@@ -156,7 +199,7 @@ func run(r *vk.Run, c Case) (reachedCrash []bool) {
 		for _, x := range s.proxy.released {
 			var t []string
 			for _, tx := range x.Txs {
-				t = append(t, string(tx))
+				t = append(t, txName(tx))
 			}
 			rel = append(rel, fmt.Sprintf("#%d %v", x.ID, t))
 		}
@@ -236,6 +279,7 @@ func run(r *vk.Run, c Case) (reachedCrash []bool) {
 	tip, _ := s.n.Store.Height(ctx)
 	inChain := map[string]int{}
 	var chainBatches [][][]byte
+	bigBlocks := 0
 	for h := uint64(1); h <= tip; h++ {
 		_, d, err := s.n.Store.GetBlockData(ctx, h)
 		if err != nil {
@@ -243,9 +287,14 @@ func run(r *vk.Run, c Case) (reachedCrash []bool) {
 			return reachedCrash
 		}
 		var txs [][]byte
+		size := 0
 		for _, tx := range d.Txs {
 			inChain[string(tx)]++
 			txs = append(txs, tx)
+			size += len(tx)
+		}
+		if size > bigHandoff {
+			bigBlocks++
 		}
 		if len(txs) > 0 {
 			chainBatches = append(chainBatches, txs)
@@ -257,7 +306,7 @@ func run(r *vk.Run, c Case) (reachedCrash []bool) {
 	for _, tx := range s.exec.Taken() {
 		r.Hit("no-loss")
 		if inChain[string(tx)] == 0 {
-			lost = append(lost, string(tx))
+			lost = append(lost, txName(tx))
 		}
 	}
 	// order: the non-empty blocks are the released non-empty batches, in release order (a batch released at a step cut by a crash may be missing)
@@ -318,10 +367,14 @@ func run(r *vk.Run, c Case) (reachedCrash []bool) {
 		}
 	}
 	if !hadCrash {
+		dups := 0
 		for tx, n := range inChain {
 			r.Hit("no-duplicate")
 			if n > s.injected[tx] {
-				viol = append(viol, fmt.Sprintf("transaction %q is in the chain %d times but was offered by the mempool %d time(s), and nothing crashed", tx, n, s.injected[tx]))
+				if dups++; dups > 4 {
+					continue
+				}
+				viol = append(viol, fmt.Sprintf("transaction %q is in the chain %d times but was offered by the mempool %d time(s), and nothing crashed", txName([]byte(tx)), n, s.injected[tx]))
 			}
 		}
 	}
@@ -334,7 +387,7 @@ func run(r *vk.Run, c Case) (reachedCrash []bool) {
 			for _, x := range rel {
 				if s.lostAllowed[x.ID] {
 					for _, tx := range x.Txs {
-						allowed[string(tx)] = true
+						allowed[txName(tx)] = true
 					}
 				}
 			}
@@ -355,6 +408,15 @@ func run(r *vk.Run, c Case) (reachedCrash []bool) {
 	}
 	r.Count("txs_taken", int64(len(s.exec.Taken())))
 	r.Count("handoffs_refused", int64(s.proxy.refused))
+	if c.BigTxKB[1] > 0 {
+		r.Hit("large-handoff-script")
+		r.Count("large_scripts_handoffs_above_one_da_blob", int64(s.proxy.big))
+		r.Count("large_scripts_handoffs_above_one_da_blob_refused", int64(s.proxy.bigRefused))
+		if s.proxy.bigRefused > 0 {
+			r.Count("large_scripts_with_a_refused_handoff_above_one_da_blob", 1)
+		}
+		r.Count("large_scripts_blocks_above_one_da_blob", int64(bigBlocks))
+	}
 	nontrivial := false
 	for _, b := range reachedCrash {
 		nontrivial = nontrivial || b
@@ -386,10 +448,39 @@ func genBase(rng *rand.Rand, id int) Case {
 	return c
 }
 
+// genBig makes a large-hand-off script: transactions of some hundred KB are injected 3-9 at a
+// time (now and then with a few small ones), so that one hand-off of the reaper carries 1-5 MB
+// and, after refusals, the backlog of several injections; the queue bound is 1-3 and the chain
+// produces more slowly than the reaper hands off, so hand-offs meet a full or nearly full queue.
+func genBig(rng *rand.Rand, id int) Case {
+	c := Case{ID: id, Queue: 1 + rng.Intn(3), TxSeed: rng.Int63()}
+	lo := 120 + rng.Intn(200)
+	c.BigTxKB = [2]int{lo, lo + 40 + rng.Intn(200)}
+	n := 8 + rng.Intn(8)
+	pProd := 15 + rng.Intn(25) // percent of the operations that produce a block
+	c.Ops = append(c.Ops, fmt.Sprintf("inj:%d:big", 5+rng.Intn(8)), "reap")
+	for i := 0; i < n; i++ {
+		switch p := rng.Intn(100); {
+		case p < pProd:
+			c.Ops = append(c.Ops, "prod")
+		case p < pProd+30:
+			c.Ops = append(c.Ops, fmt.Sprintf("inj:%d:big", 3+rng.Intn(7)))
+			if rng.Intn(3) == 0 {
+				c.Ops = append(c.Ops, fmt.Sprintf("inj:%d:%s", 1+rng.Intn(3), []string{"new", "repeat"}[rng.Intn(2)]))
+			}
+		case p < pProd+33:
+			c.Ops = append(c.Ops, "restart")
+		default:
+			c.Ops = append(c.Ops, "reap")
+		}
+	}
+	return c
+}
+
 // Run is the check entry point.
 func Run(r *vk.Run) {
 	world.Silence()
-	r.Rule = "operation scripts {inject 1-4 txs (new | repeat of earlier bytes | duplicate within the mempool), reap (real Reaper.SubmitTxs), produce (real Manager step), clean restart} on the real Reaper + real single sequencer (queue bound 1|2|3|1000, so hand-offs are refused) + real aggregator Manager sharing one datastore; for the first three reap and the first three produce operations of every script the operation is additionally cut by a crash after durable write k = 0..W (enumerated until the operation completes), followed by a restart; then reap/produce rounds until quiescence. Oracle: every tx the mempool handed out is in the chain; non-empty blocks = released batches in release order; without crashes a tx is in the chain at most as often as the mempool offered it. non-trivial = a crash strictly inside an operation or a refused hand-off; distinct by (queue bound, operation list)"
+	r.Rule = "operation scripts {inject 1-4 txs (new | repeat of earlier bytes | duplicate within the mempool), reap (real Reaper.SubmitTxs), produce (real Manager step), clean restart} on the real Reaper + real single sequencer (queue bound 1|2|3|1000, so hand-offs are refused) + real aggregator Manager sharing one datastore; for the first three reap and the first three produce operations of every script the operation is additionally cut by a crash after durable write k = 0..W (enumerated until the operation completes), followed by a restart; then reap/produce rounds until quiescence. Large-hand-off scripts (crash-free): transactions of 120-520 KB injected 3-12 at a time, queue bound 1|2|3, 15-40 % of the operations produce a block, so single hand-offs of 1-10 MB (above the payload of one DA blob) are refused and retried. Oracle: every tx the mempool handed out is in the chain; non-empty blocks = released batches in release order; without crashes a tx is in the chain at most as often as the mempool offered it. non-trivial = a crash strictly inside an operation or a refused hand-off; distinct by (queue bound, operation list)"
 	r.Assume("mempool double per contract: GetTxs does not remove, executed transactions leave the mempool; identity of a transaction is its bytes (as in the reaper)")
 	r.Assume("MemDS double: one durable write = one Put/Delete/Batch.Commit; reaper seen-set, sequencer queue and block store share the datastore as in the node")
 	rng := r.Rand("cases")
@@ -460,6 +551,28 @@ func Run(r *vk.Run) {
 	}
 	close(ch)
 	wg.Wait()
+	// large hand-offs against a short queue (crash-free; few at a time: every script holds some ten MB)
+	brng := r.Rand("large-handoffs")
+	var bigs []Case
+	for i, n := 0, r.N(40, 400); i < n; i++ {
+		bigs = append(bigs, genBig(brng, 1000000+i))
+	}
+	bch := make(chan Case)
+	for w := 0; w < 4; w++ {
+		wg.Add(1)
+		go func() {
+			defer wg.Done()
+			for c := range bch {
+				r.Guard(c, func() { run(r, c) })
+			}
+		}()
+	}
+	for _, c := range bigs {
+		bch <- c
+	}
+	close(bch)
+	wg.Wait()
+	r.Require("large-handoff-script", int64(len(bigs)))
 	// (not marked exhaustive: the fault dimension is enumerated completely, the contents are sampled)
 	r.Require("no-loss", 500)
 	r.Require("restart-after-crash", 100)
